@@ -163,7 +163,9 @@ def gen_config_case(seed, idx):
         expected_masters = [["regular", "Regular", [["wght", 400]]]]
         expected_axes = [["wght", "Weight", 400]]
     ops.append({"op": "write", "path": "config.toml", "content": "text:" + toml})
-    argv = gen.flag_args(flag_o) + ["config.toml"]
+    argv = gen.flag_args(flag_o, r) + ["config.toml"]
+    if r.random() < 0.3:
+        argv = ["config.toml"] + argv[:-1]  # flags after the positional argument
     rs = gen.rng(seed, "c10", "cfg", idx, "sched")
     if r.random() < 0.25:
         ops.append({"op": "invoke", "cwd": ".", "argv": argv, "build_dir": "build", "label": "torn", "sched": gen.sched(rs),
